@@ -236,6 +236,20 @@ def family_extra(prop, family):
     def extra(v, cov, tier, seed):
         r = run("single", tier, seed, maxpre=2 if tier == "quick" else 3, maxpre3=1 if tier == "quick" else 2, families=[family])
         decide(r, v, prop, cov)
+        # every pair of the family's single-key commands on one key, two clients, in a build with Go's race detector: commands
+        # that touch the same memory with no lock ordering them (a reader that fills a cache or a scratch buffer in the value)
+        profs = {"list": "list,queue", "string": "string,counter", "stream": "xstream"}.get(family, family)
+        rp = conc.run_conc("pairs", 0, clients=2, ops=1, seed=seed, nproc=4, race=True, profiles=profs)
+        for rc_ in rp["races"]:
+            v.report({"branch": "conc.race", "kind": "data-race", "detail": " || ".join(sorted(rc_["sites"]))[:160]}, rc_,
+                     what="unsynchronised accesses to the same memory by two %s commands on one key (Go race detector, %d reports): %s" % (family, rc_["count"], " and ".join(rc_["sites"])))
+        for a in rp["anomalies"]:
+            v.report({"branch": "conc." + a["profile"], "kind": a["kind"], "detail": a["detail"].split(":")[0][:60] if a["kind"] == "panic" else ""}, a,
+                     what="command pair %d (%s): %s" % (a["h"], a["profile"], a["detail"][:400]))
+        for dth in rp["deaths"]:
+            v.report({"branch": "conc.process", "kind": "process-death", "detail": dth["first_line"][:80]}, dth, what="the process died during command pair %d: %s" % (dth["history"], dth["first_line"]))
+        cov["race_detector_command_pairs"] = rp["histories"]
+        cov["race_reports"] = sum(x["count"] for x in rp["races"])
     return extra
 
 
